@@ -21,7 +21,7 @@ ASSUMPTIONS = [
     'Rscript is not installed: the R reference is represented by a transcription (layer count 200 as in `for (j in 1:200)`), part of the trusted base',
     'the general clause uses the 201-layer discretisation the Python code documents; for the published set the two agree to 1e-11',
 ]
-SIZES = {'quick': dict(sy=36, T=1500), 'thorough': dict(sy=1600, T=100000)}
+SIZES = {'quick': dict(sy=120, T=6000), 'thorough': dict(sy=1600, T=100000)}
 REQUIRED = {
     tier: {
         'sy-tables-checked': 20,
